@@ -217,8 +217,8 @@ impl Prop for Stream {
     }
     fn cases(tier: Tier) -> u32 {
         match tier {
-            Tier::Quick => 24_000,
-            Tier::Thorough => 3_000_000,
+            Tier::Quick => 150_000,
+            Tier::Thorough => 20_000_000,
         }
     }
     fn strategy(_tier: Tier) -> BoxedStrategy<Case> {
@@ -444,8 +444,8 @@ impl Prop for BitErrors {
     }
     fn cases(tier: Tier) -> u32 {
         match tier {
-            Tier::Quick => 24_000,
-            Tier::Thorough => 3_000_000,
+            Tier::Quick => 150_000,
+            Tier::Thorough => 20_000_000,
         }
     }
     fn strategy(_tier: Tier) -> BoxedStrategy<BitCase> {
